@@ -89,6 +89,8 @@ PROPS = {
             "TimeAndDifficultyHelper::{new, enter_root_block, enter_block, exit_block, enter_stmt, exit_stmt, time, difficulty_mask, "
             "visit_stmt_shallow} (src/passes/semantics/time_and_difficulty.rs)",
             "LabelEmitter::{new, emit_offset_and_time_labels_with} (src/llir/raise/late.rs)",
+            "InstrFormat::{write_instr, read_instr} of all nine formats, for the time field only (c13_*_time_stored; every other "
+            "header field is C03's)",
         ],
         "unverified": [
             "the Visitor that drives the helper over nested blocks and records TimeAndDifficulty per NodeId (IdMap = HashMap)",
